@@ -6,16 +6,29 @@ the same layout as the real `TorrentFileStream.iter_pieces` and `Torrent.generat
 pieces (sent as runs of (file, offset, length)) are turned into bytes from the real files and
 compared byte for byte / digest for digest.
 """
+import glob
+import json
 import os
 
 from harness import common
 from harness.gen import layouts
 from harness.impl import content
 
+MATCHERS = {}
+
 RULE = ('layouts = (piece length, file sizes in metainfo order): exhaustive small scopes + '
         'boundary-directed random (runs of tiny files, >11 files, nested dirs, real 16 KiB '
         'multiples, 1..8 hasher threads); non-trivial = at least two files and a file boundary '
-        'strictly inside a piece; distinct = distinct (L, sizes)')
+        'strictly inside a piece; distinct = distinct (L, sizes).  '
+        'histories = layout + a sequence of operations in one process (generate()/verify()/reuse() on two Torrent '
+        'objects over the same paths, other TorrentFileStream objects opened / read (get_piece, verify_piece, partial '
+        'and full iteration) / closed, listed files replaced atomically or rewritten in place with content of the '
+        'same size, with and without the old mtime); every generate() of the history is judged against the bytes the '
+        'files hold at that moment; non-trivial = a file is replaced or rewritten before a generate() while another '
+        'stream is open or after an earlier run; distinct = distinct (layout, operations).  '
+        'schedules = generate() under the deterministic scheduler (strategies uniform / PCT / stall / '
+        'timeouts-first, 1..4 hashers) x hasher faults (the n-th sha1() call of hasher k raises); non-trivial = a fault '
+        'fired or >= 2 hashers; distinct = distinct (layout, strategy+seed, fault plan)')
 
 
 def _run_chunk(cases):
@@ -33,17 +46,29 @@ def _run_chunk(cases):
             contents = content.make_tree(wd, name, files, seed=c['cseed'], single=single)
             t = content.make_torrent(torf, wd, name, files, L, single=single,
                                      via_setter=c.get('via_setter', False))
-            oom = c.get('oom')
+            oom = c.get('oom') or c.get('short')
             if oom:
                 import builtins
-                plan = {'n': 0, 'at': oom['at'], 'burst': oom['burst'], 'fired': 0}
+                plan = {'n': 0, 'at': oom['at'], 'burst': oom.get('burst', 1), 'fired': 0, 'lost': 0,
+                        'short': bool(c.get('short'))}
 
                 class _F:
                     def __init__(self, fh):
                         self._fh = fh
+                        self._eof = False
 
                     def read(self, *a):
                         plan['n'] += 1
+                        if plan['short']:
+                            # the file is truncated by someone else while it is being read: from the
+                            # at-th read() on this handle is at EOF
+                            if plan['n'] == plan['at']:
+                                self._eof = True
+                                plan['fired'] += 1
+                            if self._eof:
+                                plan['lost'] += len(self._fh.read(*a))
+                                return b''
+                            return self._fh.read(*a)
                         if plan['at'] <= plan['n'] < plan['at'] + plan['burst']:
                             plan['fired'] += 1
                             raise MemoryError('injected')
@@ -67,8 +92,9 @@ def _run_chunk(cases):
             obs['exc_type'] = type(e).__name__
         finally:
             _stream.__dict__.pop('open', None)
-        if c.get('oom'):
+        if c.get('oom') or c.get('short'):
             obs['oom_fired'] = plan['fired'] if 'plan' in dir() else 0
+            obs['bytes_lost'] = plan['lost'] if 'plan' in dir() else 0
         out.append((c, obs, contents))
     return out
 
@@ -129,6 +155,15 @@ def gen_cases(ctx, scale=1.0):
         c['oom'] = {'at': rng.randint(1, 2 * (sum(sizes) // L + len(sizes)) + 1), 'burst': rng.choice([1, 1, 2, 3])}
         c['shape'] = 'transient-oom'
         cases.append(c)
+    # 3d. a file shrinks while it is being read (someone truncates it after its size was checked): whatever the
+    #     run reports, True may only come with exactly ceil(total/L) digests
+    for _ in range(int(ctx.n(120, 2500) * scale)):
+        L = rng.choice([2, 3, 8, 64, 16384])
+        shape, sizes = layouts.random_sizes(rng, L, nmax=8)
+        c = _mk_case(L, sizes, rng, 'generate', threads=rng.randint(1, 4))
+        c['short'] = {'at': rng.randint(1, (sum(sizes) // L + len(sizes)) + 1)}
+        c['shape'] = 'truncated-mid-run'
+        cases.append(c)
     # 4. single-file torrents
     for _ in range(int(ctx.n(40, 600) * scale)):
         L = rng.choice([1, 2, 3, 8, 16384])
@@ -161,6 +196,27 @@ def evaluate(ctx, drv, cases):
             if c.get('oom'):
                 case['oom'] = c['oom']
             ctx.sample({'case': case, 'model_pieces': r['model'][:3]})
+            if c.get('short'):
+                case['short'] = c['short']
+                if 'exc' in obs:
+                    ctx.dist['truncated-mid-run: raised ' + str(obs.get('exc_type'))] += 1
+                elif obs.get('generate') is True:
+                    ctx.dist['truncated-mid-run: True (%s)' % ('nothing lost' if not obs.get('bytes_lost') else
+                                                               'bytes lost, count still right')] += 1
+                    if len(obs['pieces'] or b'') != 20 * r['count'] or \
+                            (not obs.get('bytes_lost') and obs['pieces'] != b''.join(common.sha1(w) for w in want)):
+                        ctx.violation('generate() returned True with a piece string that does not hold ceil(size/L) '
+                                      'digests (a file shrank while it was read)', case,
+                                      {'digests': r['count']}, {'digests': len(obs['pieces'] or b'') / 20,
+                                                                'ret': obs['generate'], 'bytes_lost': obs.get('bytes_lost')},
+                                      MATCHERS)
+                else:
+                    ctx.dist['truncated-mid-run: ' + repr(obs.get('generate'))] += 1
+                    if obs.get('pieces') is not None:
+                        ctx.violation('generate() did not return True but stored a piece string', case,
+                                      {'pieces': None}, {'ret': obs.get('generate'),
+                                                         'pieces': (obs['pieces'] or b'').hex()[:80]}, MATCHERS)
+                continue
             if 'exc' in obs:
                 if c.get('oom') and obs.get('exc_type') == 'ReadError':
                     ctx.dist['oom-gave-up(ReadError, not a successful run)'] += 1
@@ -187,26 +243,553 @@ def evaluate(ctx, drv, cases):
                                    'npieces': obs['npieces']})
 
 
+# ====================================================================================== histories
+# generate() inside a history of the process (model: lean/Torf/Model/GenHistory.lean,
+# theorem C01_generate_history): only the bytes the listed files hold when generate() runs matter.
+
+MAX_OPEN = 10       # TorrentFileStream.max_open_files (the model's `cap`)
+VER_BASE = 1 << 20
+
+
+def _ver_bytes(cseed, ver, j, size):
+    """content version `ver` of file j (version 0 is what content.make_tree writes)"""
+    return content.file_bytes(cseed + 104729 * ver, j, size)
+
+
+def _file_path(top, c, j):
+    return top if c.get('single') else os.path.join(top, *c['paths'][j])
+
+
+def _run_history(torf, _stream, wd, c):
+    L, sizes = c['L'], c['sizes']
+    files = [{'path': p, 'size': sz} for p, sz in zip(c['paths'], sizes)]
+    single = c.get('single', False)
+    top = os.path.join(wd, 'T')
+    content.make_tree(wd, 'T', files, seed=c['cseed'], single=single)
+    torrents = [content.make_torrent(torf, wd, 'T', files, L, single=single, via_setter=c.get('via_setter', False))
+                for _ in range(2)]
+    if L % 16384:
+        for t in torrents:
+            t.validate = lambda: None        # small piece lengths: only verify()'s validate() gate is bypassed
+    tdir = os.path.join(wd, 'torrents')
+    vers = [0] * len(sizes)
+    streams = {}
+    gens, noise = [], 0
+    try:
+        for op in c['ops']:
+            kind = op[0]
+            try:
+                if kind == 'gen':
+                    t = torrents[op[1]]
+                    rec = {'vers': list(vers)}
+                    try:
+                        rec['ret'] = t.generate(threads=op[2])
+                        rec['pieces'] = t.metainfo['info'].get('pieces')
+                        rec['hashes'] = list(t.hashes) if rec['pieces'] is not None else None
+                        rec['npieces'] = t.pieces
+                    except BaseException as e:   # noqa
+                        rec['exc'] = f'{type(e).__name__}: {e}'
+                    gens.append(rec)
+                elif kind == 'verify':
+                    t = torrents[op[1]]
+                    if t.metainfo['info'].get('pieces'):
+                        t.verify(top, threads=op[2], callback=lambda *a: None)
+                elif kind == 'reuse':
+                    t, o = torrents[op[1]], torrents[1 - op[1]]
+                    if o.metainfo['info'].get('pieces'):
+                        os.makedirs(tdir, exist_ok=True)
+                        o.write(os.path.join(tdir, 'other.torrent'), overwrite=True)
+                        t.reuse(tdir)
+                elif kind == 'snew':
+                    streams[op[1]] = _stream.TorrentFileStream(torrents[op[2]])
+                elif kind == 'sget':
+                    streams[op[1]].get_piece(op[2])
+                elif kind == 'shash':
+                    streams[op[1]].get_piece_hash(op[2])
+                elif kind == 'sverify':
+                    streams[op[1]].verify_piece(op[2])
+                elif kind == 'siter':
+                    it = streams[op[1]].iter_pieces()
+                    n = op[2]
+                    k = 0
+                    for _ in it:
+                        k += 1
+                        if n is not None and k >= n:
+                            break
+                    it.close()
+                elif kind == 'sclose':
+                    streams[op[1]].close()
+                elif kind in ('replace', 'rewrite'):
+                    j, ver = op[1], op[2]
+                    fp = _file_path(top, c, j)
+                    data = _ver_bytes(c['cseed'], ver, j, sizes[j])
+                    st = os.stat(fp)
+                    if kind == 'replace':
+                        with open(fp + '.tmp~', 'wb') as f:
+                            f.write(data)
+                        os.replace(fp + '.tmp~', fp)
+                    else:
+                        with open(fp, op[3]) as f:
+                            f.write(data)
+                    if op[4]:
+                        os.utime(fp, ns=(st.st_atime_ns, st.st_mtime_ns))
+                    vers[j] = ver
+                else:
+                    raise RuntimeError(f'bad history op {op!r}')
+            except RuntimeError:
+                raise
+            except Exception:   # noqa   what the other operations answer is not C01's business
+                noise += 1
+    finally:
+        for st_ in streams.values():
+            try:
+                st_.close()
+            except Exception:   # noqa
+                pass
+    return {'gens': gens, 'noise': noise}
+
+
+def _touched_by_piece(L, sizes, i):
+    lo, hi = i * L, min((i + 1) * L, sum(sizes))
+    out, pos = [], 0
+    for j, sz in enumerate(sizes):
+        if sz and pos < hi and pos + sz > lo:
+            out.append(j)
+        pos += sz
+    return out
+
+
+def _model_ops(c):
+    """the history as the model sees it (which files an operation of another stream opens is an input)"""
+    L, sizes = c['L'], c['sizes']
+    out = []
+    for op in c['ops']:
+        k = op[0]
+        if k == 'gen':
+            out.append(['gen'])
+        elif k == 'snew':
+            out.append(['new'])
+        elif k in ('sget', 'shash', 'sverify'):
+            out += [['touch', op[1], j] for j in _touched_by_piece(L, sizes, op[2])]
+        elif k == 'siter':
+            n = op[2]
+            last = len(sizes) - 1
+            if n is not None:
+                t = _touched_by_piece(L, sizes, max(0, n - 1))
+                last = t[-1] if t else last
+            out += [['touch', op[1], j] for j in range(last + 1)]
+        elif k == 'sclose':
+            out.append(['close', op[1]])
+        elif k in ('replace', 'rewrite'):
+            out.append([k, op[1], op[2]])
+    return out
+
+
+def _mk_history(rng, L, sizes, single=False, via_setter=False, nested=True):
+    n = len(sizes)
+    total = sum(sizes)
+    npieces = max(1, (total + L - 1) // L)
+    nonempty = [j for j, sz in enumerate(sizes) if sz] or [0]
+    ops, open_streams, nstreams, ver = [], [], 0, 0
+    has_pieces = [False, False]
+
+    def mutate():
+        nonlocal ver
+        ver += 1
+        j = rng.choice(nonempty)
+        if rng.random() < 0.6:
+            return ['replace', j, ver, None, rng.random() < 0.3]
+        return ['rewrite', j, ver, rng.choice(['r+b', 'wb']), rng.random() < 0.3]
+
+    def read_op(s, j=None):
+        if j is None:
+            i = rng.randrange(npieces)
+        else:   # a piece that overlaps file j
+            pos = sum(sizes[:j])
+            i = min(npieces - 1, (pos + rng.randrange(max(1, sizes[j]))) // L)
+        k = rng.choice(['sget', 'sget', 'shash', 'sverify', 'siter', 'siter'])
+        if k == 'siter':
+            return ['siter', s, rng.choice([None, i + 1, rng.randint(1, npieces)])]
+        return [k, s, i]
+
+    def new_stream():
+        nonlocal nstreams
+        s = nstreams
+        nstreams += 1
+        open_streams.append(s)
+        return ['snew', s, rng.randrange(2)]
+
+    def gen():
+        k = rng.randrange(2)
+        has_pieces[k] = True
+        return ['gen', k, rng.randint(1, 4)]
+
+    if rng.random() < 0.45:
+        # the pattern that matters most: something holds handles, a file changes, generate() runs
+        if rng.random() < 0.6:
+            ops.append(gen())
+        ops.append(new_stream())
+        m = mutate()
+        for _ in range(rng.randint(1, 3)):
+            ops.append(read_op(open_streams[-1], m[1] if rng.random() < 0.7 else None))
+        ops.append(m)
+        if rng.random() < 0.3:
+            ops.append(['sclose', open_streams.pop()])
+        ops.append(gen())
+    for _ in range(rng.randint(2, 9)):
+        w = rng.random()
+        if w < 0.22:
+            ops.append(gen())
+        elif w < 0.42:
+            ops.append(mutate())
+        elif w < 0.54 and nstreams < 4:
+            ops.append(new_stream())
+        elif w < 0.80 and open_streams:
+            ops.append(read_op(rng.choice(open_streams)))
+        elif w < 0.86 and open_streams:
+            s = rng.choice(open_streams)
+            open_streams.remove(s)
+            ops.append(['sclose', s])
+        elif w < 0.93 and any(has_pieces):
+            ops.append(['verify', rng.choice([k for k in (0, 1) if has_pieces[k]]), rng.randint(1, 3)])
+        elif via_setter and any(has_pieces):
+            ops.append(['reuse', rng.randrange(2)])
+        else:
+            ops.append(gen())
+    if ops[-1][0] != 'gen':
+        ops.append(gen())
+    return {'kind': 'history', 'L': L, 'sizes': sizes, 'paths': layouts.paths_for(n, rng, nested),
+            'cseed': rng.randrange(1 << 30), 'single': single, 'via_setter': via_setter, 'ops': ops}
+
+
+def gen_histories(ctx, scale=1.0):
+    rng = ctx.rng
+    cases = []
+    for _ in range(int(ctx.n(420, 12000) * scale)):
+        w = rng.random()
+        if w < 0.62:
+            L = rng.choice([1, 2, 3, 4, 5, 8, 16, 64])
+            sizes = [max(0, layouts.boundary_sizes(rng, L)) for _ in range(rng.randint(1, 5))]
+            if sum(sizes) == 0:
+                sizes[0] = L + 1
+            cases.append(_mk_history(rng, L, sizes))
+        elif w < 0.74:
+            # more files than the open-handle cap: handles are evicted and re-opened
+            L = rng.choice([2, 3, 8])
+            sizes = [rng.choice([1, 2, L, L + 1, 0]) for _ in range(rng.randint(12, 18))]
+            if sum(sizes) == 0:
+                sizes[0] = L
+            cases.append(_mk_history(rng, L, sizes))
+        elif w < 0.88:
+            # real piece length through the public setter, files of a few pieces (and larger than any read buffer)
+            L = 16384
+            sizes = [rng.choice([1, L - 1, L, L + 1, rng.randint(1, 3 * L), rng.randint(2 * L, 5 * L)])
+                     for _ in range(rng.randint(1, 4))]
+            cases.append(_mk_history(rng, L, sizes, via_setter=True))
+        else:
+            L = rng.choice([2, 8, 16384])
+            cases.append(_mk_history(rng, L, [max(1, layouts.boundary_sizes(rng, L))], single=True,
+                                     via_setter=(L == 16384), nested=False))
+    return cases
+
+
+def _run_hist_chunk(cases):
+    torf = common.import_torf()
+    from torf import _stream
+    wd = common.worker_dir()
+    out = []
+    for c in cases:
+        try:
+            obs = _run_history(torf, _stream, wd, c)
+        except BaseException as e:   # noqa
+            import traceback
+            obs = {'harness_exc': traceback.format_exc()[-1500:]}
+        out.append((c, obs))
+    return out
+
+
+def _bytes_from_ver_runs(c, runs):
+    out = []
+    for f, o, n in runs:
+        ver, j = f // VER_BASE, f % VER_BASE
+        out.append(_ver_bytes(c['cseed'], ver, j, c['sizes'][j])[o:o + n])
+    return b''.join(out)
+
+
+def _hist_nontrivial(c):
+    """a file changes before a generate() while another stream is open or after an earlier run"""
+    seen_gen, open_s, changed = False, set(), False
+    for op in c['ops']:
+        k = op[0]
+        if k == 'gen':
+            if changed:
+                return True
+            seen_gen = True
+        elif k == 'snew':
+            open_s.add(op[1])
+        elif k == 'sclose':
+            open_s.discard(op[1])
+        elif k in ('replace', 'rewrite') and (open_s or seen_gen):
+            changed = True
+    return False
+
+
+def evaluate_histories(ctx, drv, cases):
+    replies = drv.run([{'op': 'c01.history', 'L': c['L'], 'cap': MAX_OPEN, 'sizes': c['sizes'],
+                        'ops': _model_ops(c)} for c in cases])
+    results = common.pmap(_run_hist_chunk, common.split(cases, common.NPROC * 4))
+    flat = [x for chunk in results for x in chunk]
+    for (c, obs), r in zip(flat, replies):
+        if 'harness_exc' in obs:
+            raise RuntimeError(f'harness failure: {obs["harness_exc"]}')
+        case = {k: c[k] for k in ('kind', 'L', 'sizes', 'paths', 'cseed', 'single', 'via_setter', 'ops')}
+        ctx.case(key=json.dumps([c['L'], c['sizes'], c['ops']]), nontrivial=_hist_nontrivial(c),
+                 kind='history/' + ('single' if c['single'] else 'real-16k' if c['via_setter'] else
+                                    'many-handles' if len(c['sizes']) > MAX_OPEN + 1 else 'small'))
+        ctx.dist['history-ops'] += len(c['ops'])
+        ctx.dist['history-noise-exceptions(other operations, ignored)'] += obs['noise']
+        ctx.sample({'case': case, 'model': [m['kind'] for m in r['model']]}, limit=3)
+        if not r['hyp']:
+            ctx.machinery_error('history generator left the scope of C01_generate_history', case)
+            continue
+        if not r['specEq']:
+            ctx.machinery_error('runHist != specHist although C01_generate_history is proved', case)
+            continue
+        if len(r['model']) != len(obs['gens']):
+            ctx.machinery_error('driver and harness disagree on the number of generate() calls', case)
+            continue
+        for gi, (m, g) in enumerate(zip(r['model'], obs['gens'])):
+            ctx.dist['history-generate-calls'] += 1
+            cur = [_ver_bytes(c['cseed'], v, j, c['sizes'][j]) for j, v in enumerate(g['vers'])]
+            stream = b''.join(cur)
+            want = [stream[i:i + c['L']] for i in range(0, len(stream), c['L'])]
+            exp = b''.join(common.sha1(w) for w in want)
+            # model (= specification, proved) in bytes
+            mp = [_bytes_from_ver_runs(c, runs) for runs in m.get('pieces', [])]
+            if m['kind'] != 'stored' or mp != want:
+                ctx.machinery_error('model pieces differ from the chunks of the current bytes', case)
+                break
+            ok = ('exc' not in g and g['ret'] is True and g['pieces'] == exp and g['npieces'] == r['count']
+                  and g['hashes'] == [common.sha1(w) for w in want])
+            if not ok:
+                wrong = None
+                if g.get('pieces') and len(g['pieces']) == len(exp):
+                    wrong = [i for i in range(len(want)) if g['pieces'][20 * i:20 * i + 20] != exp[20 * i:20 * i + 20]]
+                ctx.violation(f'generate() #{gi + 1} of the history did not store the sha1 of the chunks of the bytes '
+                              'the files hold when it ran', case,
+                              {'ret': True, 'pieces': exp.hex()[:120], 'count': r['count'], 'file_versions': g['vers']},
+                              {'ret': g.get('ret'), 'exc': g.get('exc'), 'pieces': (g.get('pieces') or b'').hex()[:120],
+                               'wrong_piece_indexes': wrong}, MATCHERS)
+                break
+
+
+# ====================================================================================== schedules
+# generate() under the deterministic scheduler with hasher faults (model: lean/Torf/Model/PipelineHF.lean,
+# theorems C01_hash_fault_sound, C01_hash_fault_lost_not_success, C01_hash_fault_off_refines).
+
+STRATS = ['uniform', 'uniform', 'pct', 'pct', 'stall', 'timeouts-first']
+
+
+def _mk_strategy(rng, threads):
+    kind = rng.choice(STRATS)
+    params = {}
+    if kind == 'stall':
+        params = {'victim': rng.choice(['main', 'reader', 'janitor'] + [f'hasher{i+1}' for i in range(threads)]),
+                  'patience': rng.choice([30, 200, 600])}
+    elif kind == 'pct':
+        params = {'d': rng.choice([1, 2, 3]), 'horizon': rng.choice([60, 200, 500])}
+    return {'kind': kind, 'params': params, 'seed': rng.randrange(1 << 30)}
+
+
+def gen_sched(ctx, scale=1.0):
+    rng = ctx.rng
+    cases = []
+    for _ in range(int(ctx.n(700, 30000) * scale)):
+        threads = rng.choice([1, 2, 2, 2, 3, 4])
+        cap = 3 * threads
+        L = rng.choice([2, 3, 4, 8])
+        npieces = max(1, rng.choice([1, 2, 3, cap - 1, cap, cap + 1, cap + threads + 2, rng.randint(1, 2 * cap + 3)]))
+        total = max(1, npieces * L - rng.choice([0, 0, 1, L - 1]))
+        nfiles = rng.randint(1, 3)
+        cuts = sorted(rng.sample(range(1, total), min(total - 1, nfiles - 1))) if total > 1 else []
+        sizes = [b - a for a, b in zip([0] + cuts, cuts + [total])]
+        faults = []
+        w = rng.random()
+        if w > (0.55 if threads == 1 else 0.2):
+            for _ in range(1 if w < 0.85 else 2):
+                # mostly a hasher that may die from boredom (2..N); sometimes the vital one
+                h = 1 if (threads == 1 or rng.random() < 0.12) else rng.randint(2, threads)
+                f = [f'hasher{h}', rng.choice([1, 1, 1, 2, 2, 3, 4])]
+                if f not in faults:
+                    faults.append(f)
+        cases.append({'kind': 'sched', 'mode': 'generate', 'L': L, 'sizes': sizes,
+                      'paths': layouts.paths_for(len(sizes), rng, nested=False), 'cseed': rng.randrange(1 << 30),
+                      'threads': threads, 'disk': ['ok'] * len(sizes), 'flips': [], 'cb': None, 'interval': 0,
+                      'strategy': _mk_strategy(rng, threads), 'hash_fault': faults,
+                      'max_steps': 2500 if faults else 20000})
+    return cases
+
+
+def _run_sched_chunk(cases):
+    from harness.sched import runner
+    torf = common.import_torf()
+    wd = common.worker_dir()
+    out = []
+    for c in cases:
+        try:
+            obs = runner.run_case(torf, wd, c)
+            obs.pop('gate_nows', None)
+            obs.pop('calls', None)
+        except BaseException as e:   # noqa
+            import traceback
+            obs = {'harness_exc': traceback.format_exc()[-1500:]}
+        out.append((c, obs))
+    return out
+
+
+def evaluate_sched(ctx, drv, cases):
+    results = common.pmap(_run_sched_chunk, common.split(cases, common.NPROC * 4))
+    flat = [x for chunk in results for x in chunk]
+    reqs = []
+    for c, obs in flat:
+        if 'harness_exc' in obs:
+            raise RuntimeError(f'harness failure: {obs["harness_exc"]}')
+        n = obs['total']
+        pqm = (obs.get('structure') or {}).get('pq_max')
+        cfg = {'N': c['threads'], 'cap': pqm if pqm and pqm > 0 else 3 * c['threads'], 'items': ['data'] * n,
+               'readFault': None, 'refuse': [], 'raiseOnBad': True, 'cbByDone': []}
+        reqs.append({'op': 'c01.replayx', 'cfg': cfg, 'L': c['L'], 'sizes': c['sizes'],
+                     'hashFault': [[int(h[6:]) - 1, k - 1] for h, k in c['hash_fault']], 'trace': obs['trace']})
+    replies = drv.run(reqs)
+    for (c, obs), rep in zip(flat, replies):
+        case = {k: c[k] for k in ('kind', 'mode', 'L', 'sizes', 'paths', 'cseed', 'threads', 'disk', 'flips', 'cb',
+                                  'interval', 'strategy', 'hash_fault', 'max_steps')}
+        fired = sorted(h for h, _ in obs['hash_fault_fired'])
+        ctx.case(key=json.dumps(case, sort_keys=True), nontrivial=bool(fired) or c['threads'] >= 2,
+                 kind=f"sched/{c['strategy']['kind']}/N{c['threads']}/{'fault' if c['hash_fault'] else 'nofault'}")
+        ctx.dist['sched-steps'] += obs['steps']
+        ctx.sample({'case': case, 'outcome': obs['outcome'], 'result': obs['result'], 'fired': obs['hash_fault_fired'],
+                    'trace_tail': obs['trace'][-8:]}, limit=3)
+        if obs['outcome'] == 'budget':
+            ctx.dist['sched: step budget exhausted (inconclusive)'] += 1
+            continue
+        res = obs['result']
+        ret = res.get('returned') if res and 'returned' in res else None
+        stored = obs['pieces_stored']
+        hang = obs['outcome'] in ('deadlock', 'livelock')
+        # ---- I in S: True only together with the complete correct string, otherwise nothing stored
+        problems = []
+        if ret is True:
+            if stored != obs['want_pieces']:
+                n_got = len(stored or b'') / 20
+                problems.append(f'generate() returned True but stored {n_got:g} digests that are not the '
+                                f'{obs["total"]} digests of the content in order')
+        else:
+            if stored is not None:
+                problems.append(f'generate() did not return True ({res}) but stored a piece string')
+            if res and 'returned' in res and ret is not False:
+                problems.append(f'generate() returned {ret!r}')
+        if not fired and not hang and ret is not True:
+            problems.append(f'no fault fired but generate() did not return True: {res}')
+        if not fired and hang:
+            problems.append(f'no fault fired but the run does not return: threads at {obs["stuck"]}')
+        if problems:
+            ctx.violation(f'generate(threads={c["threads"]}) under schedule {c["strategy"]["kind"]} with hasher faults '
+                          f'{c["hash_fault"]}: ' + '; '.join(problems), case,
+                          {'ret_true_only_with': obs['want_pieces'].hex()[:120], 'digests': obs['total']},
+                          {'result': res, 'stored': (stored or b'').hex()[:120], 'fired': obs['hash_fault_fired'],
+                           'outcome': obs['outcome'], 'trace_tail': obs['trace'][-25:]}, MATCHERS)
+            continue
+        if not fired:
+            ctx.dist['sched: no fault fired -> True'] += 1
+        elif hang:
+            ctx.dist['sched: fault, run does not return (no success claimed; see notes: candidate finding)'] += 1
+        elif ret is True:
+            ctx.dist['sched: fault fired, run still complete -> True'] += 1
+        elif ret is False:
+            ctx.dist['sched: fault swallowed (dead hasher pruned by the janitor) -> False, nothing stored'] += 1
+        else:
+            ctx.dist['sched: fault re-raised by join -> exception, nothing stored'] += 1
+        # ---- M in S (theorem) and I = M (replay of the trace in the model with hasher faults)
+        if not rep['ok']:
+            ctx.corr_break('c01.replayx', case, {k: rep[k] for k in rep if k != 'id'},
+                           {'trace_around': obs['trace'][max(0, rep['at'] - 6): rep['at'] + 2]})
+            continue
+        if rep['hyp'] and not rep['sound']:
+            ctx.machinery_error('model state contradicts C01_hash_fault_sound / C01_hash_fault_lost_not_success', case)
+            continue
+        mg = (rep['generate'] or {}).get('kind')
+        if hang:
+            agree = (not rep['terminal']) and (not rep['canProgress'])
+        elif ret is True:
+            agree = rep['terminal'] and mg == 'stored'
+        elif ret is False:
+            agree = rep['terminal'] and mg == 'cancelled'
+        else:
+            is_inj = bool(res and 'raised' in res and res['raised'].get('exc_type') == 'MemoryError')
+            agree = rep['terminal'] and mg == 'raised' and is_inj and 'hasherExc' in (rep['result'] or {})
+        if agree and sorted(rep['dead']) != fired:
+            agree = False
+        if not agree:
+            ctx.corr_break('c01.replayx(final)', case,
+                           {'terminal': rep['terminal'], 'canProgress': rep['canProgress'], 'result': rep['result'],
+                            'generate': mg, 'dead': rep['dead'], 'lost': rep['lost']},
+                           {'outcome': obs['outcome'], 'result': res, 'fired': obs['hash_fault_fired'],
+                            'stuck': obs['stuck']})
+
+
+def _corpus_cases():
+    out = []
+    for p in sorted(glob.glob(os.path.join(common.CORPUS_DIR, 'C01', '*.json'))):
+        cc = json.load(open(p))
+        out.append(cc.get('case', cc))
+    return out
+
+
+def _dispatch(ctx, drv, cases):
+    """route cases (corpus, replay) to the evaluator of their kind"""
+    plain = [c for c in cases if c.get('kind') not in ('history', 'sched')]
+    hist = [c for c in cases if c.get('kind') == 'history']
+    sch = [c for c in cases if c.get('kind') == 'sched']
+    if plain:
+        evaluate(ctx, drv, plain)
+    if hist:
+        evaluate_histories(ctx, drv, hist)
+    if sch:
+        evaluate_sched(ctx, drv, sch)
+
+
 def run(ctx, drv):
     ctx.notes['rule'] = RULE
     ctx.notes['assumptions'] = [
         'SHA-1 is a parameter H of the model; the harness applies real hashlib.sha1 to the model pieces',
         'Torrent.pieces uses float division: exact for sizes < 2^52 (generators stay far below)',
         'the model covers content whose files are all present with the recorded size (other branch: C10)',
-        'thread schedules of the pipeline are covered by C03; here the collector sort is the theorem C01_collect_perm',
+        'thread schedules of the fault-free pipeline are covered by C03; here the collector sort is the theorem C01_collect_perm',
+        'histories: files do not change while a generate() is in progress; replacements keep the recorded size; a handle '
+        'obtained from the cache is read from offset 0 to EOF (fh.seek(0) is unconditional; offsets left by earlier reads: C19)',
+        'schedules: same granularity and shim as C03/C04 (one label per queue/event/thread operation); a hasher fault is an '
+        'exception raised by sha1() inside HasherPool._handle_piece (module global torf._generate.sha1 replaced from the harness)',
     ]
-    cases = gen_cases(ctx)
-    evaluate(ctx, drv, cases)
+    corpus = _corpus_cases()
+    if corpus:
+        _dispatch(ctx, drv, corpus)
+    evaluate(ctx, drv, gen_cases(ctx))
+    evaluate_histories(ctx, drv, gen_histories(ctx))
+    evaluate_sched(ctx, drv, gen_sched(ctx))
     ctx.exhaustive = False
 
 
 def search(ctx, drv):
-    cases = gen_cases(ctx, scale=3.0)
-    evaluate(ctx, drv, cases)
+    evaluate(ctx, drv, gen_cases(ctx, scale=3.0))
+    evaluate_histories(ctx, drv, gen_histories(ctx, scale=3.0))
+    evaluate_sched(ctx, drv, gen_sched(ctx, scale=3.0))
 
 
 def replay(ctx, drv, rp):
     c = dict(rp['case'])
-    c.setdefault('level', 'both')
-    evaluate(ctx, drv, [c])
-    return {'fails': bool(ctx.violations), 'violations': ctx.violations}
+    if c.get('kind') not in ('history', 'sched'):
+        c.setdefault('level', 'both')
+    _dispatch(ctx, drv, [c])
+    return {'fails': bool(ctx.violations or ctx.corr_breaks), 'violations': ctx.violations,
+            'corr_breaks': ctx.corr_breaks}
